@@ -232,6 +232,21 @@ theorem range_contains (sec : Int) (hsec : 0 ≤ sec) (ts : List Int) :
     · split <;> omega
     · split <;> split <;> split <;> omega
 
+/-- **the time range contains every recorded time**, the act starts and the ends of the mood periods included (they are
+recorded by the audition, not by the collector: `assemble` adds them since c9d1f38) -/
+theorem range_contains_acts_and_moods (sec : Int) (hsec : 0 ≤ sec) (collected acts moodEnds : List Int) :
+    ∀ t, t ∈ collected ∨ t ∈ acts ∨ t ∈ moodEnds →
+      (resultRange sec collected acts moodEnds).1 ≤ t ∧ t ≤ (resultRange sec collected acts moodEnds).2 := by
+  intro t ht
+  apply (range_contains sec hsec (collected ++ (acts ++ moodEnds))).1 t
+  simp only [List.mem_append]
+  exact ht
+
+/-- before the repair an act that holds no action started beyond `MaxTime` (times in 1/10000 s: the play of the
+finding, tempo 600 ms, `storyline p .` repeated: one action at 0, act starts at 1.2 s and 1.8 s) -/
+theorem old_range_misses_an_idle_act :
+    (resultRangeOld 10000 [0, 5]).2 < 12000 ∧ (resultRange 10000 [0, 5] [0, 6000, 12000, 18000] []).2 = 18000 := by decide
+
 example : (0 : Int) ≤ 10000 := by decide
 
 /-- the executable form used as oracle on the real result.js -/
